@@ -897,7 +897,7 @@ func main() {
 	r := rng.New(*seed)
 	nSearch, nFetch := 5000, 4000
 	if *tier == "thorough" {
-		nSearch, nFetch = 150000, 100000
+		nSearch, nFetch = 60000, 40000
 	}
 	scripts := genExhaustive()
 	w.Exhaust = true
